@@ -11,8 +11,11 @@ instead of "params" (see ``materialise``).
 
 The CATALOGUE table at the bottom has one row per pass: constructor-option
 strategy + domain generator (``gen``), builder (``make``), exactness class,
-rewrite bound R and postcondition.  ``/venv/bin/python -m vt.props.c10 ROW N``
-runs N generated cases of one row (development aid).
+rewrite bound R and postcondition.  Development aids:
+``/venv/bin/python -m vt.props.c10 ROW|all N [seed]`` runs N generated cases of
+one row in-process; ``C10_ROWS=RowA,RowB ./check C10`` restricts a run to some
+rows.  Pass classes exported by ``bqskit.passes`` that no row covers are
+reported as ``not-in-catalogue:<name>`` labels (never a failure).
 """
 from __future__ import annotations
 
@@ -936,12 +939,13 @@ def _general_gate(name: str, radix: int):
 @st.composite
 def _gsq_gen(draw, avoid):
     radix = 2 if 'gsq_qudit' in avoid else draw(st.sampled_from([2, 2, 3, 3, 4]))
+    choices = [g for g in GSQ_CHOICES[radix]
+               if not (g == 'U8Gate' and {'u8_nan', 'u8_wrong'} & avoid)]
     case = {
-        'opts': {'radix': radix,
-                 'general': draw(st.sampled_from(GSQ_CHOICES[radix]))},
+        'opts': {'radix': radix, 'general': draw(st.sampled_from(choices))},
         'circ': draw(sq_circuit(radix, min_ops=1)), 'seed': 0,
     }
-    if 'gsq_qudit' in avoid:
+    if {'gsq_qudit', 'u8_nan', 'u8_wrong'} & avoid:
         case['excluded'] = 1
     return case
 
@@ -963,8 +967,13 @@ def _gsq_post(case, cin, cout, info, out):
     out.label(f'gsq-radix-{case["opts"]["radix"]}')
 
 
+# U8Gate.calc_params inverts through arcsin/arccos (conditioning ~ sqrt(eps)
+# near the ends of their ranges: 1.5e-7 observed), so that choice is judged
+# with the analytic tolerance; the other general gates are exact
 row('GeneralSQDecomposition', 'exact', _gsq_gen, _gsq_make, _gsq_post,
-    q=5, t=200, feature=lambda case: case['opts']['general'])
+    q=5, t=200, feature=lambda case: case['opts']['general'],
+    tol=lambda case, cin: ANALYTIC_TOL if case['opts']['general'] == 'U8Gate'
+    else EXACT_TOL)
 
 
 # =============================================================== utility rows
@@ -2253,6 +2262,8 @@ KNOWN_TRIGGERS = {
     # open known finding, makes them avoid the trigger by construction so the
     # search goes on behind it (cases then carry "excluded": 1)
     'gsq_qudit': SIG_GSQ_QUDIT,
+    'u8_nan': 'output_not_a_unitary|GeneralSQDecomposition|U8Gate|ValueError',
+    'u8_wrong': 'unitary|GeneralSQDecomposition|U8Gate',
     'extract': SIG_EXTRACT,
     'filter_tree': 'post_filter|TreeScanningGateRemovalPass',
     'filter_exh': 'post_filter|ExhaustiveGateRemovalPass',
